@@ -56,8 +56,10 @@ NilShape(o) == /\ Has(o, "alts") /\ "n" \in DOMAIN o.alts /\ Has(o.alts["n"], "r
 Dev_AsLiteralUnsignedNil(o) == NilShape(o) /\ (AltOK(o, "u") \/ AltOK(o, "us"))
 \* ... and only in its exact shape: the observed tree is what the design with the time-string comparison yields
 \* (both strings are time literals and were compared as instants); any other wrong answer on such strings is a violation
+\* (the design with ONLY the time-string comparison - the repaired asLiteral - or with both named deviations)
 ModelRed(r) == MReduce(r.tree, MapValuer(SelectSeq(r.binds, LAMBDA b : b.at = 1)), DevAll)
-Dev_TimeStringEquality(r, o) == AltOK(o, "s") /\ o.red = (IF Has(r, "mred") THEN r.mred ELSE ModelRed(r))
+TseRed(r) == MReduce(r.tree, MapValuer(SelectSeq(r.binds, LAMBDA b : b.at = 1)), [uns |-> FALSE, tse |-> TRUE])
+Dev_TimeStringEquality(r, o) == AltOK(o, "s") /\ (o.red = (IF Has(r, "mred") THEN r.mred ELSE ModelRed(r)) \/ o.red = TseRed(r))
 
 ExprVerdict(r, o) ==
   IF ~ValEq(o.v1, o.v0) THEN
